@@ -104,7 +104,8 @@ RuleRoundTrip == (WDone /\ res = "ok") => UnparseRule(acc) = toks /\ ParseRule(U
 
 -----------------------------------------------------------------------------
 (* Part B: channels, spellings, damages *)
-Channels == {"str", "slice", "reader", "value", "json_slice", "json_reader", "json_tree", "jsonpretty_reader"}
+Channels == {"str", "slice", "reader", "value", "json_slice", "json_reader", "json_tree", "jsonpretty_reader",
+             "reader_pieces", "json_reader_pieces"}     \* readers handing the text out a few bytes per call
 Spellings6 == {"plain", "ws", "uescape", "trailing_garbage", "concatenated", "truncated"}
 \* texts padded with characters that are NOT JSON white space (form feed, vertical tab, no-break space, BOM, NUL)
 PaddedSpellings == {"pad_ff", "pad_vt", "pad_nbsp", "pad_bom", "pad_nul"}
